@@ -88,7 +88,7 @@ def too_expensive(node):
             rv = const(r)
             if rv is None and isinstance(r, ast.BinOp) and isinstance(r.op, ast.Pow):
                 rv = 10 ** 9
-            if rv is not None and abs(rv) > 4096:
+            if rv is not None and abs(rv) > 2000000:
                 lv = const(n.left)
                 if lv is None or abs(lv) not in (0, 1):
                     return True
